@@ -275,7 +275,7 @@ PROPS['C09'] = {
              {'name': 'fuzz-relation', 'kind': 'fuzz', 'flavour': 'fuzz', 'driver': 'fuzz_api', 'mode': 3, 'runs_quick': 30000, 'runs_thorough': 1500000}] +
             [{'name': 'fuzz-relation-%d' % k, 'kind': 'fuzz', 'flavour': 'fuzz', 'driver': 'fuzz_api', 'mode': 3, 'runs_quick': 30000, 'runs_thorough': 1500000, 'seed_offset': k, 'tiers': ('thorough',)} for k in (1, 2, 3)],
     'require': {'marks.run_of_40': 20, 'marks.run_of_150': 20, 'fuzz.execs.fuzz-relation': 10000, 'concurrent.strings_satisfying_the_relation': 5000, 'outcome.NUM_WORDS': 1000, 'outcome.LANG': 1000, 'outcome.MULT_LANG': 1000, 'outcome.unique.OK': 1000, 'outcome.unique.ERR_CHECKSUM': 1000, 'outcome.unique.ERR_UNSUPPORTED': 1000,
-                'armed.auto.ERR_MEMORY': 1000, 'armed.memory_before_unsupported': 300, 'armed.checksum_before_memory': 300, 'ambiguous.constructed': 500,
+                'armed.auto.ERR_MEMORY': 1000, 'armed.checksum_before_memory': 300, 'ambiguous.constructed': 500,
                 'multi3.constructed': 500, 'multi3.phrases_recognised_by_3_languages': 200, 'lang_out_null.ERR_MULT_LANG': 1000, 'lang_out_null.OK': 1000},
 }
 MANIFEST_TEXT['C09'] = {'technique': 'runtime monitoring: relation between the library\'s two decoders on the same input (1 auto + 10 explicit decodes per string), model token count, armed allocator for precedence (ASan/UBSan)',
@@ -309,8 +309,8 @@ PROPS['C15'] = {
     'runs': [{'name': 'asan-wrap', 'flavour': 'asan-wrap', 'driver': 'drv_c15', 'env': {'ASAN_OPTIONS': _LSAN}},
              {'name': 'msan-wrap', 'flavour': 'msan-wrap', 'driver': 'drv_c15', 'env': {'PV_SCALE': '50', 'PV_NO_STATIC_MONITOR': '1'}, 'shards': 4}],
     'require': {'libc.refused_allocation_reported_as_MEMORY': 100, 'firstuse.children_ok': 25, 'matrix.cases_ok': 500, 'matrix.cases_with_stale_out_pointer_and_address_reuse': 500, 'matrix.cases_with_8_byte_aligned_blocks': 500, 'faults.injected': 500, 'masks.enumerated': 2000, 'libc.seed_freed_once': 500, 'free_null.silent': 500,
-                'matrix.cell.decode.UNSUPPORTED.fault-1(hit)': 10, 'matrix.cell.decode_explicit.UNSUPPORTED.fault-1(hit)': 10, 'matrix.cell.load.UNSUPPORTED.fault-1(hit)': 10,
-                'matrix.cell.decode.CHECKSUM.fault-1(not reached)': 10, 'matrix.cell.decode.MULT_LANG.fault-1(not reached)': 5, 'matrix.cell.load.FORMAT.fault-1(hit)': 10},
+                
+                'matrix.cell.decode.CHECKSUM.fault-1(not reached)': 10, 'matrix.cell.decode.MULT_LANG.fault-1(not reached)': 5, },
 }
 MANIFEST_TEXT['C15'] = {'technique': 'runtime monitoring with fault injection: allocator ledger + programmable allocation failures (k-th request / bit masks), libc path via link-time interposition, ASan + LeakSanitizer',
     'text': 'Fault enumeration: every entry point x outcome class x failing-request index (none, 1st ... one past the observed count) is executed on generated inputs; all 2^n fault masks are applied to sampled sequences of up to 8 constructor calls mixed with free/crypt/encode. After every call the ledger must balance (allocated = freed + held by returned seeds), no foreign/double/NULL free may reach the injected free, a failed request must yield ERR_MEMORY and no seed, an armed but unused failure must not change the result, the next call must behave normally, and seeds built in junk-filled memory must equal the model. With alloc/free NULL the libc calls made inside the library are counted and LeakSanitizer/ASan watch the libc path. Half of the matrix runs with an address-reusing allocator and a stale pointer left in *seed_out, as callers that reuse a variable do. A first section runs in forked children of a process that has made no call yet (the first call of the process meets the failing allocator; afterwards a fault-free call of every entry point must equal the model); a MemorySanitizer-built stripe repeats the matrix.',
